@@ -389,28 +389,55 @@ def check_assembly(ctx, p):
             ctx.fail("C05-R6", idx_b.path, "index", "index() = %s" % r, idx_b.loc())
     ir = cm.body_or_fail(ctx, p, "C05-R6", "model::voice::window::Window::iter_rev")
     if ir is not None:
+        from ..expr import resolve_upvars
+        from ..loops import rewrite
         r = ExprBuilder(ir).local(0)
         txt = show(r)
-        clos = [x for x in walk(r) if x[0] == "agg" and x[1].startswith("closure:")]
+        # the (start, width) pair may travel with the items as `zip(repeat((start, width)))` or be
+        # captured by a `move` closure: both are resolved to the values themselves
+        rep = None
+        for x in walk(r):
+            if x[0] == "call" and x[1].endswith("iter::repeat") and x[2] and x[2][0][0] == "agg" and len(x[2][0][2]) == 2:
+                rep = x[2][0][2]
+        zipped = rep is not None and "Iterator::zip(" in txt
+        item = ("field", ("arg", 2, None), "0") if zipped else ("arg", 2, None)
         okc = False
-        for cl in clos:
+        seen_cl = None
+        for cl in [x for x in walk(r) if x[0] == "agg" and x[1].startswith("closure:")]:
             cb = p.bodies.get(cl[1][len("closure:"):])
             if cb is None:
                 continue
-            cr = ExprBuilder(cb).local(0)
-            # ((idx, coef), (start, width)) -> (WindowIndex::new(start + idx, width), *coef)
+            cr = resolve_upvars(p, cb, ExprBuilder(cb).local(0))
+
+            def f(n):
+                # own parameter (tuple pattern): arg2 ; zipped pair: arg2.1.0 / arg2.1.1 -> repeat values
+                if zipped and n[0] == "field" and n[1][0] == "field" and n[1][1][0] == "arg" and n[1][1][1] == 2 and n[1][2] == "1" and n[2] in ("0", "1"):
+                    return rep[int(n[2])]
+                return None
+            cr = rewrite(cr, f)
+            seen_cl = show(cr)[:200]
+
+            def is_item(e, k):
+                base = e[1] if e[0] == "field" and e[2] == k else None
+                if base is None:
+                    return False
+                if zipped:
+                    return base[0] == "field" and base[2] == "0" and base[1][0] == "arg" and base[1][1] == 2
+                return base[0] == "arg" and base[1] == 2
             if cr[0] == "agg" and len(cr[2]) == 2 and cr[2][0][0] == "call" and cr[2][0][1].endswith("WindowIndex::new"):
                 a0, a1 = cr[2][0][2]
-                s0 = sorted([show(x) for x in (a0[2], a0[3])]) if a0[0] == "bin" and a0[1] == "Add" else []
-                if s0 == ["arg2.0.0", "arg2.1.0"] and show(a1) == "arg2.1.1" and show(cr[2][1]) == "arg2.0.1":
+                parts = [a0[2], a0[3]] if a0[0] == "bin" and a0[1] == "Add" else []
+                has_start = any(x[0] == "arg" and show(x) == "start" for x in parts)
+                has_idx = any(is_item(x, "0") for x in parts)
+                w_ok = show(a1) in ("model::voice::window::Window::width(self)", "len(self.coefficients)")
+                if has_start and has_idx and w_ok and is_item(cr[2][1], "1"):
                     okc = True
         chain_ok = ("Iterator::enumerate(" in txt and "self.coefficients" in txt and "RangeFrom{start: start}" in txt and
-                    "std::iter::repeat(tuple(start, model::voice::window::Window::width(self)))" in txt and
                     not any(s_ in txt for s_ in ("::skip(", "::take(", "::filter(", "::step_by(")))
         if okc and chain_ok:
             ctx.ok("C05-R6", "iter_rev(start) yields (WindowIndex(start + k, width), coefficients[start + k]) for every k (order irrelevant to the sums)", ir.loc())
         else:
-            ctx.fail("C05-R6", ir.path, "tap iterator", "iter_rev no longer pairs coefficient start+k with WindowIndex(start+k, width) over all of coefficients[start..]: closure ok=%s, chain ok=%s (%s)" % (okc, chain_ok, txt[:200]), ir.loc())
+            ctx.fail("C05-R6", ir.path, "tap iterator", "iter_rev no longer pairs coefficient start+k with WindowIndex(start+k, width) over all of coefficients[start..]: closure ok=%s (%s), chain ok=%s (%s)" % (okc, seen_cl, chain_ok, txt[:160]), ir.loc())
     wd = cm.body_or_fail(ctx, p, "C05-R6", "model::voice::window::Window::width")
     if wd is not None:
         r = show(ExprBuilder(wd).local(0))
